@@ -183,6 +183,12 @@ def main():
         log("INCONCLUSIVE:", e)
         print("INCONCLUSIVE property=%s reason=%s" % (prop, str(e)[:400].replace("\n", " ")))
         return V.EXIT_INCONCLUSIVE
+    if prop == "C05" and a.tier == "thorough":
+        import kani_crosscheck
+        try:
+            info["kani"] = kani_crosscheck.run(scratch)
+        except Exception as e:   # noqa - the cross-check must never mask engine B's verdict
+            info["kani"] = {"error": str(e)[:300]}
     return report(prop, a.tier, allf, qs, info, t0)
 
 
@@ -219,6 +225,10 @@ def report(prop, tier, findings, qs, info, t0):
         print("   %s[%s] %s (%s profile): %s; witness %s -> real code returns %s" % (
             K.SYMBOL.get(f.op, f.op), f.arm, f.cls, f.profile, f.detail, " ".join("%s:%s" % (k, hex(v)) for k, v in f.witness), " ".join(map(str, f.native))))
         exit_code = V.EXIT_VIOLATION
+    kani_disagrees = [h for h, r in (info.get("kani") or {}).items() if isinstance(r, dict) and r.get("c05_assertion_failed")]
+    if kani_disagrees and exit_code == V.EXIT_OK:
+        exit_code = V.EXIT_INCONCLUSIVE
+        print("INCONCLUSIVE property=%s kani_disagrees=%s" % (prop, ",".join(kani_disagrees)))
     if bad_replay or qs.undecided:
         for f in bad_replay[:10]:
             log("NON-REPRODUCING counterexample (engine or model wrong):", json.dumps(f.as_dict()))
@@ -255,6 +265,7 @@ def report(prop, tier, findings, qs, info, t0):
         "engine_time_s": info["summaries_s"],
         "executor_stats": info["executor"],
         "witnesses_by_candidate_evaluation": qs.by_candidate,
+        "second_engine_kani (thorough tier only; compiled code, CBMC)": info.get("kani"),
         "samples": qs.samples + [f.as_dict() for f in (new + listed)[:6]],
         "known_findings_reported": len(seen),
         "new_violations": len(new),
